@@ -316,7 +316,53 @@ def signature(inst, problems):
     return f"{op}|{shape}|{problems[0][0]}"
 
 
+# ------------------------------------------------------------------ re-entrancy family
+REENTRY = {
+    # name: (build(env, src), hot timeline offsets, expected on_next (offset, value)) ; 'f' is the element the subscriber pushes into
+    # the live source from inside its on_next for 'a' (user code re-entering the pipeline during a delivery)
+    "sample:10": (lambda env, ops, src: src.pipe(ops.sample(10, env.sched)), [(5, "a")], [(10, "a"), (20, "f")]),
+    "sample:obs": (lambda env, ops, src: src.pipe(ops.sample(env.hot("ticks", [(vt.SUB + t, "N", 0) for t in (10, 20, 30, 40)]))), [(5, "a")], [(10, "a"), (20, "f")]),
+    "debounce:10": (lambda env, ops, src: src.pipe(ops.debounce(10, env.sched)), [(5, "a")], [(15, "a"), (25, "f")]),
+    "throttle_with_mapper:10": (lambda env, ops, src: src.pipe(ops.throttle_with_mapper(lambda x: env.cold("thr", [(10, "N", 0)]))), [(5, "a")], [(15, "a"), (25, "f")]),
+    "throttle_first:10": (lambda env, ops, src: src.pipe(ops.throttle_first(10, env.sched)), [(5, "a"), (20, "g")], [(5, "a"), (20, "g")]),
+}
+
+
+def judge_reentry(name):
+    from reactivex import operators as ops
+
+    build, tl, exp = REENTRY[name]
+    env = vt.Env()
+    src = env.hot("src", [(vt.SUB + t, "N", v) for (t, v) in tl] + [(vt.SUB + 70, "C", None)])
+    rec = env.recorder("out")
+
+    def hook(value, k):
+        if value == "a":
+            src.emit_now("N", "f")  # the subscriber re-enters the live source while 'a' is being delivered to it
+
+    rec.on_next_hook = hook
+    env.subscribe_at(vt.SUB, lambda: build(env, ops, src), rec)
+    env.run(horizon=vt.SUB + 200)
+    got = [(t - vt.SUB, v) for (t, k, v) in rec.events() if k == "N"]
+    probs = []
+    if got != exp:
+        probs.append(("reentrant-emission", f"{name}: the subscriber pushes 'f' into the live source from inside on_next('a'); delivered {got}, the operator's rule gives {exp}"))
+    if env.sched.escaped:
+        probs.append(("escaped", repr(env.sched.escaped[0][1])))
+    g = rec.grammar_violation()
+    if g:
+        probs.append(("grammar", g))
+    return probs, got
+
+
 def shard(part: core.Part, shard_i, nshards, tier, seed, deadline):
+    if shard_i == 0:
+        for name in REENTRY:
+            probs, got = judge_reentry(name)
+            part.case(("reentry", name), True, outcome=("reentry", name, repr(got)))
+            part.count("op:" + name.split(":")[0] + ":reentrant")
+            if probs:
+                part.violation(f"{name.split(':')[0]}|reentrant|{probs[0][0]}", probs[0][1], {"mode": "reentry", "name": name}, problems=[p[1] for p in probs])
     for (inst, tl) in core.shard_iter(all_cases(tier, seed), shard_i, nshards):
         if part.evals % 128 == 0 and time.time() > deadline:
             part.complete = False
@@ -353,6 +399,10 @@ def run(ctx: core.Ctx):
 
 
 def replay(case):
+    if case.get("mode") == "reentry":
+        probs, got = judge_reentry(case["name"])
+        print("re-entrancy case", case["name"], "delivered", got)
+        return [{"signature": f"{case['name'].split(':')[0]}|reentrant|{p[0]}", "what": p[1]} for p in probs]
     tl = [tuple(x) for x in case["timeline"]]
     for inst in instances(case["tier"], case["seed"]):
         if inst.iid == case["instance"]:
